@@ -80,13 +80,13 @@ def pProblems (fault : String) (checkSF : Bool) (s : St) : List String :=
 def proxyScenario (fault : String) (tunnels seed : Nat) : String :=
   if fault == "sever-backlog" || fault.startsWith "epfault-" || fault.startsWith "side-" then "n/a" else
   let F := Gen.Teardown.facts
-  let hung := fault == "kick-hung" || fault == "kick-hung-hinted" || fault == "graceful-silent"
+  let hung := fault == "kick-hung" || fault == "kick-hung-hinted" || fault == "graceful-silent" || fault == "fatal-frame"
   let n := if hung then tunnels + 1 else tunnels
   let s0 : St := { init ((List.range n).map fun _ => (2, 0)) with hung := hung }
   let setup := if hung then (List.range n).flatMap (fun i => [Ev.front i .arrive, .front i .lookup]) else pSetup n
   let faultEvs : List Ev :=
     if fault == "sever" then [.sever]
-    else if fault == "graceful-silent" then [.sever]  -- (the proxy's own close ends it; the model has no silent-after-ack peer)
+    else if fault == "graceful-silent" || fault == "fatal-frame" then [.sever]  -- (the proxy's own close ends it; the model has no silent-after-ack peer)
     else if fault == "kick" || hung then [.kick]
     else if fault == "endpoint-close" then [.hint]
     else if fault == "cancel" then [.cancel]
@@ -174,7 +174,7 @@ def backlogScenario (extra seed : Nat) : String :=
 
 def endpointScenario (fault : String) (tunnels seed : Nat) : String :=
   if fault == "sever-backlog" then backlogScenario (2 + tunnels) seed else
-  if fault == "kick-hung" || fault == "kick-hung-hinted" || fault == "graceful-silent" then "n/a" else
+  if fault == "kick-hung" || fault == "kick-hung-hinted" || fault == "graceful-silent" || fault == "fatal-frame" then "n/a" else
   let F := Gen.Teardown.epFacts
   let faultEvs : List Ev :=
     if fault == "sever" || fault == "kick" || fault == "epfault-cut" then [.sever]
